@@ -31,6 +31,17 @@ def run_pt(ctx, states, rng):
             if got.shape != want.shape or core.gt(np.abs(got - want).max(), TOL):
                 ctx.violation('C17:partial_trace:contraction', 'partial trace differs from the explicit index contraction (dims=%s keep=%s)' % (dims, keep), data)
                 continue
+            # the keep argument denotes a SET of subsystems (MC_PartialTrace): every concrete form the function accepts must give the same answer
+            forms = [('list', list(keep)), ('tuple', tuple(keep)), ('reversed', list(reversed(keep))), ('repeated', list(keep) + list(keep[:1])), ('numpy-ints', [np.int64(k) for k in keep])]
+            if len(keep) == 1:
+                forms += [('int', int(keep[0])), ('numpy-int', np.int64(keep[0]))]
+            for fname, karg in forms:
+                try:
+                    g2 = numqi.utils.partial_trace(rho, dims, karg)
+                    if g2.shape != want.shape or core.gt(np.abs(g2 - want).max(), TOL):
+                        ctx.violation('C17:partial_trace:keep-form', 'partial trace with keep given as %s (%r) differs from the explicit index contraction (dims=%s)' % (fname, karg, dims), dict(data, form=fname))
+                except Exception as ex:
+                    ctx.violation('C17:partial_trace:keep-form:exception', 'keep given as %s (%r): %s: %s' % (fname, karg, type(ex).__name__, str(ex)[:120]), dict(data, form=fname))
             # every matrix unit separately for the smaller configurations (one implementation test per unit)
             if D <= 12:
                 for a in range(D):
